@@ -44,6 +44,19 @@ pub fn exec_inflate_proto(s: &Script, st: &mut Stats) -> Result<RunInfo, Violati
     let valid = v.verdict == Verdict::Valid;
     let stream_len = if valid { v.consumed } else { usize::MAX };
     let mut state = InflateState::new_boxed(fmt);
+    if s.c("prelude") != 0 {
+        // the state has served another stream before (abandoned with output pending) and was reset with a
+        // zeroing policy: it must behave like a new one (the MinReset policy has a known finding, see C18)
+        let pre = s.blob("prelude_stream");
+        let mut tiny = [0u8; 3];
+        let _ = inflate(&mut state, pre, &mut tiny[..(s.c("prelude") as usize % 4)], MZFlush::None);
+        if s.c("prelude") % 2 == 0 {
+            state.reset(fmt);
+        } else {
+            state.reset_as(miniz_oxide::inflate::stream::ZeroReset);
+        }
+        st.inc("probe.state_reused_after_reset");
+    }
     let mut delivered = 0usize;
     let mut consumed = 0usize;
     let mut sink: Vec<u8> = Vec::new();
